@@ -100,3 +100,9 @@ func AddGx14(a int) int {
 	// the sum
 	return a + 14
 }
+
+// PlainG carries a directive that matches nothing: it is reported, on every run.
+func PlainG(a int) int {
+	//lint:ignore SA4006 nothing is wrong on the next line
+	return a
+}
